@@ -9,6 +9,7 @@
     cardinality, percentiles and percentile_ranks (exact mode), with sub-aggregations to any depth. *)
 From Coq Require Import List ZArith NArith Bool Permutation.
 From SL Require Import Base.Tie C12.Model C12.Proofs.
+From SL Require C12.Composite.
 Import ListNotations.
 Open Scope Z_scope.
 
@@ -45,3 +46,21 @@ Example C12_nonvacuous :
                    k_obs := [RBuckets [(3, 3%N, [RStats 3 44 6 30 44]); (1, 2%N, [RStats 2 6 2 4 6])];
                              RBuckets [(0, 4%N, []); (10, 2%N, [])]] |} = 0%N.
 Proof. vm_compute. repeat split; reflexivity. Qed.
+
+(** Composite aggregations (terms and histogram sources; C12/Composite.v): per-segment collection
+    and the count-adding merge give exactly the one-pass response over all matched live
+    documents, in lexicographic key order, cut to [size]; hence any two ways of splitting the
+    same document sequence into segments give the same response. *)
+Theorem C12_composite_exact : forall srcs size segs,
+  Composite.crun srcs size segs = Composite.cspec srcs size (concat segs).
+Proof. exact Composite.composite_exact. Qed.
+
+Theorem C12_composite_split_independent : forall srcs size segs1 segs2,
+  concat segs1 = concat segs2 -> Composite.crun srcs size segs1 = Composite.crun srcs size segs2.
+Proof. exact Composite.composite_split_independent. Qed.
+
+Example C12_composite_nonvacuous :
+  Composite.crun [Composite.STerms 0; Composite.SHist 1 10] 3
+    [[ [[1]; [-3]]; [[2; 1]; [12]] ]; [ [[1]; [-7]] ]]
+  = [([1; -10], 2%N); ([1; 10], 1%N); ([2; 10], 1%N)].
+Proof. vm_compute. reflexivity. Qed.
